@@ -13,7 +13,7 @@ TS_STYLES = ["regular", "regular", "dups", "gaps", "biggaps", "mixed", "mixed", 
 # price styles that stress a particular indicator (crossed channel bands, exact ties, oscillators pinned to 0/100, values finer
 # than the rounding, untraded stretches); used with some probability by the per-indicator generators of the tie and the oracles
 KIND_STYLES = {
-    "SUPERTREND": ["shock", "shock", "jumpy"], "KC": ["shock", "flat"], "ATR": ["shock", "grid"], "TR": ["grid", "gappy"],
+    "SUPERTREND": ["shock", "stcross", "jumpy", "stcross"], "KC": ["shock", "flat"], "ATR": ["shock", "grid"], "TR": ["grid", "gappy"],
     "STOCH": ["onedge", "onedge", "grid", "flat"], "RSI": ["onedge", "rising", "falling", "flat"], "AROON": ["grid", "onedge", "falling", "rising"],
     "ADX": ["grid", "grid", "shock", "onedge"], "DONCHIAN": ["fine", "grid"], "HIGHESTLOWEST": ["fine", "grid"], "HL": ["fine", "grid"],
     "VWAP": ["zerovol", "grid", "allzerovol"], "OBV": ["grid", "repeat", "zerovol"], "VWMA": ["zerovol", "allzerovol", "grid"],
@@ -92,6 +92,70 @@ def gen_prices(rng, n, style=None):
             dn = rng.uniform(0.03, 0.35) if side in ("down", "both") else abs(rng.gauss(0, 0.003))
             h = max(round(max(o, c) * (1 + up), 2), o, c)
             l = min(max(round(min(o, c) * (1 - dn), 2), 0.01), o, c)
+            out.append((o, h, l, c, rng.randint(0, 2000)))
+            p = c
+        return out, style
+    if style == "stcross":
+        # a calm trend (the active channel band ratchets up to the price), then a very wide candle that closes where it opened (the
+        # fresh opposite band lands beyond the kept active band: the stored bands have crossed), then a close between the two
+        p = round(100.0 * rng.uniform(0.5, 2.0), 2)
+        up = rng.choice([True, False])
+        k, wait, after = 0, rng.randint(5, 16), False
+        for i in range(n):
+            o = p
+            if after:
+                c = round(o * (rng.uniform(0.9, 0.97) if up else rng.uniform(1.03, 1.1)), 2)
+                h, l = max(o, c), min(o, c)
+                after, k, wait = False, 0, rng.randint(5, 16)
+                if rng.random() < 0.3:
+                    up = not up
+            elif k >= wait:
+                c = round(o * (1 + rng.uniform(-0.002, 0.002)), 2)
+                h = round(max(o, c) * (1.001 if up else rng.uniform(1.25, 1.6)), 2)
+                l = round(min(o, c) * (rng.uniform(0.55, 0.8) if up else 0.999), 2)
+                after = True
+            else:
+                c = round(o * (1 + (0.004 if up else -0.004) + rng.gauss(0, 0.001)), 2)
+                h, l = round(max(o, c) * 1.001, 2), round(min(o, c) * 0.999, 2)
+                k += 1
+            h, l = max(h, o, c), min(l, o, c)
+            out.append((o, h, l, c, rng.randint(0, 2000)))
+            p = c
+        return out, style
+    if style == "star":
+        # a quiet market in which, now and then, a long-bodied candle is followed by a doji that gaps away in its direction, a small body
+        # gaps down under a long upper shadow (inverted hammer) or sits on the previous low over a long lower shadow (hammer)
+        p = round(100.0 * rng.uniform(0.5, 2.0), 2)
+        pending = None
+        for i in range(n):
+            k = rng.random() if (out and pending is None) else 1.0
+            if k < 0.24:
+                po, ph, pl, pc, _ = out[-1]
+                body = rng.choice([0.01, 0.02, 0.03])
+                if k < 0.12:
+                    c = round(max(min(po, pc) * (1 - rng.uniform(0.004, 0.01)), 0.05), 2)
+                    o = round(max(c - body, 0.02), 2)
+                    h, l = round(c + rng.uniform(0.5, 1.5), 2), o
+                else:
+                    o = round(max(pl + rng.uniform(-0.1, 0.1), 0.05), 2)
+                    c = round(o + body, 2)
+                    h, l = c, round(max(o - rng.uniform(0.5, 1.5), 0.01), 2)
+            elif pending is not None:
+                d, po, pc = pending
+                gap = rng.uniform(0.005, 0.02)
+                o = round(max(po, pc) * (1 + gap), 2) if d > 0 else round(min(po, pc) * (1 - gap), 2)
+                c = round(o + rng.choice([0, 0, 0.01, -0.01]), 2)
+                h, l = round(max(o, c) + rng.uniform(0.2, 1.0), 2), round(max(min(o, c) - rng.uniform(0.2, 1.0), 0.01), 2)
+                pending = None
+            else:
+                o = p
+                long_ = i >= 3 and rng.random() < 0.25
+                d = rng.choice([-1, 1])
+                c = round(o * (1 + d * rng.uniform(0.03, 0.06)), 2) if long_ else round(o * (1 + rng.gauss(0, 0.004)), 2)
+                h, l = round(max(o, c) * (1 + abs(rng.gauss(0, 0.003))), 2), round(min(o, c) * (1 - abs(rng.gauss(0, 0.003))), 2)
+                if long_:
+                    pending = (d, o, c)
+            h, l = max(h, o, c), min(l, o, c)
             out.append((o, h, l, c, rng.randint(0, 2000)))
             p = c
         return out, style
